@@ -681,6 +681,7 @@ class Lowerer:
             recv = self.e(base)
         elif const_method and not self.is_repo_class(bt):
             recv = self.e(base)          # by value
+            if name in CONST_OVERLOADED: cname += '__const'      # Qt has `T &m()` and `T m() const`: two model functions
         else:
             recv = self.addr(base)
         cargs = [recv] + [self.arg(a) for a in args]
@@ -1631,6 +1632,7 @@ ENUM_MODEL_TYPES = {'QtMsgType', 'Handler_HandlerType', 'QIODevice_OpenModeFlag'
                     'QEvent_Type', 'Qt_EventPriority', 'QSettings_Format', 'QUuid_StringFormat', 'Qt_TimeSpec'}
 OBJECT_TYPES = {'QFile', 'QFileDevice', 'QIODevice', 'QSaveFile', 'QObject', 'QThread', 'QCoreApplication', 'QMutex', 'QRecursiveMutex',
                 'QTextStream', 'QSettings', 'QEvent', 'QNetworkAccessManager', 'QNetworkReply'}
+CONST_OVERLOADED = {'unicode'}
 PURE_EXTERN_METHODS = {'toStdString', 'errorString', 'fileName', 'toUtf8', 'toLocal8Bit', 'size', 'constData', 'data', 'c_str', 'toString'}
 ITER_METHODS = {'begin', 'end', 'cbegin', 'cend', 'constBegin', 'constEnd', 'rbegin', 'rend', 'crbegin', 'crend'}
 RAII_TYPES = {'QMutexLocker', 'QMutexLocker_QMutex', 'QMutexLocker_QRecursiveMutex', 'std_unique_lock_QRecursiveMutex', 'std_unique_lock_QMutex',
